@@ -728,12 +728,18 @@ func (g *Gen) genFamily(fam string) (Op, bool) {
 			ax := r.Intn(d)
 			var reps []int
 			if r.Intn(2) == 0 {
-				reps = []int{r.Intn(4)}
+				// (a zero count gives a tensor with a zero-length axis; iterating one never terminates in
+				// this library, so they are kept rare)
+				reps = []int{1 + r.Intn(3)}
+				if r.Intn(60) == 0 {
+					reps[0] = 0
+				}
 			} else {
 				reps = make([]int, t.Shape()[ax])
 				for i := range reps {
 					reps[i] = r.Intn(3)
 				}
+				reps[r.Intn(len(reps))] = 1 + r.Intn(2)
 				if r.Intn(15) == 0 {
 					reps = append(reps, 1)
 				}
@@ -945,6 +951,15 @@ func (g *Gen) genProduct() (Op, bool) {
 			if rr >= 0 {
 				op.Mode, op.R = "incr", rr
 			}
+		case 3:
+			// a reuse tensor for the product and an incr tensor it is added to
+			rr := g.pickWritable(func(x *tensor.Dense) bool { return x.Dtype() == t.Dtype() && x.Shape().TotalSize() == outElems })
+			ii := g.pickWritable(func(x *tensor.Dense) bool {
+				return x.Dtype() == t.Dtype() && x.Shape().TotalSize() == outElems && smallInts(x)
+			})
+			if rr >= 0 && ii >= 0 {
+				op.Mode, op.R, op.R2 = "reuse-incr", rr, ii
+			}
 		}
 		return op
 	}
@@ -1025,7 +1040,12 @@ func (g *Gen) genProduct() (Op, bool) {
 		if b < 0 || r.Intn(12) == 0 {
 			b = pickB(func(x *tensor.Dense) bool { return x.Dtype() == t.Dtype() })
 		}
-		return Op{Name: "Dot", In: []int{a, b}, Out: g.newSlot()}, true
+		dop := Op{Name: "Dot", In: []int{a, b}, Out: g.newSlot()}
+		tb := w.get(b)
+		if tb != nil && t.Dims() == 2 && tb.Dims() == 2 && r.Intn(2) == 0 {
+			dop = withMode(dop, t.Shape()[0]*tb.Shape()[1])
+		}
+		return dop, true
 	case 8: // TensorMul / Contract
 		a := g.pick(and(fl, func(t *tensor.Dense) bool { return t.Dims() >= 1 }))
 		if a < 0 {
